@@ -43,17 +43,20 @@ func ParseIdentity(
 			return nil, err
 		}
 
-		if password != "" {
-			for _, identity := range identities {
-				if identity.PrivateKey == nil {
-					return nil, config.ErrIdentityUnparsable
-				}
+		// Unlock every locked key with the password, even if it is empty (keys generated with an empty password are locked, too)
+		for _, identity := range identities {
+			if identity.PrivateKey == nil {
+				return nil, config.ErrIdentityUnparsable
+			}
 
+			if identity.PrivateKey.Encrypted {
 				if err := identity.PrivateKey.Decrypt([]byte(password)); err != nil {
 					return nil, err
 				}
+			}
 
-				for _, subkey := range identity.Subkeys {
+			for _, subkey := range identity.Subkeys {
+				if subkey.PrivateKey != nil && subkey.PrivateKey.Encrypted {
 					if err := subkey.PrivateKey.Decrypt([]byte(password)); err != nil {
 						return nil, err
 					}
